@@ -14,9 +14,10 @@ Binding (TLC judges every record against ObsEncodingTrace.tla, clause ObservedEq
       every reset / step the DECLARED observation tree (parsed from the scenario options) is walked and for every
       leaf group the truth is read directly from the simulator objects (node.operating_state, nic.enabled,
       software.operating_state / health_state_actual / health_state_visible, folder / file health_status /
-      visible_health_status / deleted, acl._acl[i], link.current_load / bandwidth, num_executions, num_access,
+      visible_health_status / _scanned_this_step / deleted, acl._acl[i], link.current_load / bandwidth, num_executions, num_access,
       num_file_creations / deletions, nic.nmne, user sessions) - never from describe_state() - and logged with the
-      observed values.  NMNE is validated as a small state machine: the event carries the previous step's totals.
+      observed values.  NMNE and the folder health under requires_scan are validated as small state machines: the
+      event carries the previous step's totals / the value at the last scan the observation saw.
 """
 from __future__ import annotations
 
@@ -36,8 +37,12 @@ def main(tier: str, seed: int) -> int:
         "generator states are enumerated by TLC (state dump of MC_ObsEncoding), not mirrored in Python",
         "leaves with memory: NMNE (category of the count since the previous observation, or of the cumulative count: "
         "the documentation does not say which, both are accepted; the previous totals travel in the event); folder "
-        "health under file_system_requires_scan is NOT treated as a state machine: the documented value is the "
-        "folder's last-scanned (visible) status, which the simulator keeps, so it is compared directly",
+        "health under file_system_requires_scan (ObsEncoding!FolderEnc: the visible status at the last step in which the "
+        "observation saw the folder's scanned-this-step flag set, 0 before - the reading fixed by the repository's unit test "
+        "test_folder_require_scan): the memory travels in the event (truth.last), read from folder._scanned_this_step / "
+        "folder.visible_health_status at every observation; at component level a fresh FolderObservation is driven through "
+        "real observe() sequences (scan-completing state, visible changing without a scan, the generator state, a later "
+        "non-scanning state); a visible status changed without a folder scan (node OS scan) is counted as drift",
         "a step that raises produces no observation: recorded as a Raised event, the environment is reset, the run continues",
         "services / applications present in several instances with different states on one node are not examined "
         "(which instance is 'the' service is not documented); counted under environment_level.notes",
